@@ -285,6 +285,19 @@ def job_forms(args: dict) -> dict:
     same("ndarray", lambda: mf(np.array(shape), seed=seed))
     same("torch.Size", lambda: mf(torch.Size(shape), seed=seed))
     same("keyword", lambda: mf(shape=shape, seed=seed, return_acs=False))
+
+    def after_history():
+        # a fresh instance that first served another width / another seed / an ACS request must answer the same
+        m2 = RC.build(conf)
+        other = shape[:-2] + (cols + 7, 2)
+        for sh, sd, acs in ((other, seed + 1, False), (other, seed + 2, True), (shape, seed + 3, False)):
+            try:
+                m2(sh, return_acs=acs, seed=sd)
+            except Exception:  # noqa: BLE001 - an infeasible neighbour request is not the point here
+                pass
+        return m2(shape, seed=seed)
+
+    same("after-history", after_history)
     if conf["gen"] not in RC.KT:
         same("leading-axes", lambda: mf((2, 3) + shape, seed=seed))
     # call sites
@@ -525,9 +538,16 @@ def _run_cases(ctx: Ctx, store: dict):
         w.start()
         for c in gen_cases(ctx):
             try:
-                c["res"] = w.call(MOD, "job_case", {"conf": c["conf"], "shape": c["shape"], "seed": c["seed"]}, budget=60)
+                c["res"] = w.call(MOD, "job_case", {"conf": c["conf"], "shape": c["shape"], "seed": c["seed"]}, budget=90)
             except RC.Hang as e:
-                store["hangs"].append({"case": {k: c[k] for k in ("conf", "shape", "seed")}, "budget": e.budget})
+                what = {k: c[k] for k in ("conf", "shape", "seed")}
+                if c["conf"]["gen"] == "VariableDensityPoisson" and c["conf"].get("kwargs", {}).get("max_attempts", 10) > 10:
+                    # the active-list overrun is undefined behaviour: it kills the process or corrupts the heap and spins;
+                    # both are the recorded class
+                    store["crashes"].append({"case": what, "how": f"no answer within {e.budget} s (undefined behaviour after the overrun)",
+                                             "key": "generator-crashes/VariableDensityPoisson/active-list-overrun"})
+                else:
+                    store["hangs"].append({"case": what, "budget": e.budget})
                 continue
             except RC.WorkerFailure as e:
                 # the process running the real code died (or the job failed): a finding with its arguments, never exit 2;
@@ -893,6 +913,13 @@ def oracle(ctx: Ctx, deep: bool = False):
                 d = abs(total / cnt - R) if cnt else float("inf")
                 wk = "poisson_crop" if crop else "poisson"
                 worst[wk] = max(worst[wk], d / tol)
+                if f == 0:
+                    seen = sorted({e["ints"][2] for e in res["log"] if e.get("kind") == "kernel" and e.get("name") == "_poisson"
+                                   and len(e.get("ints") or []) >= 3})
+                    if seen and seen != [kw.get("max_attempts", 10)]:
+                        yield Violation("option-not-forwarded/max_attempts",
+                                        f"VD-Poisson constructed with max_attempts={kw.get('max_attempts', 10)} runs its kernel with {seen}",
+                                        dict(rep, observed=seen, expected=kw.get("max_attempts", 10)))
                 if not d < tol:
                     yield Violation("poisson-tolerance" + ("/crop_corner" if crop else ""),
                                     f"VD-Poisson (options {kw}) returned a mask with |R_actual - R| = {d:.3f} >= tol {tol}",
@@ -930,7 +957,8 @@ def oracle(ctx: Ctx, deep: bool = False):
         ctx.count(("forms", gen, conf["mode"], tuple(shape), fc["seed"]), r["err"] is None,
                   bucket=f"oracle/forms/{gen}/{conf['mode']}" + ("" if r["err"] is None else "/" + r["err"]))
         if r["err"] is not None:
-            if not gen.endswith("Magic"):
+            # Magic: ACS block may use up the budget; VD-Poisson: "cannot generate mask" is its documented way out
+            if not gen.endswith("Magic") and not (gen == "VariableDensityPoisson" and r["err"] == "ValueError"):
                 yield Violation(f"feasible-call-raises/{gen}", f"{gen} raises {r['err']} for a feasible pair", rep)
             continue
         for name, fr_ in sorted(r["forms"].items()):
@@ -943,7 +971,8 @@ def oracle(ctx: Ctx, deep: bool = False):
         # unseeded call: the budget itself
         uns = r.get("unseeded")
         if uns is None:
-            if r.get("unseeded_err") and not gen.endswith("Magic"):
+            if r.get("unseeded_err") and not gen.endswith("Magic") and not (
+                    gen == "VariableDensityPoisson" and r["unseeded_err"] == "ValueError"):
                 yield Violation(f"feasible-call-raises/{gen}", f"{gen} unseeded raises {r['unseeded_err']}", dict(rep, seed=None))
             continue
         two_d = gen in RC.TWO_D
